@@ -168,6 +168,17 @@ def single_assignments(fn_node: ast.AST) -> Dict[str, ast.expr]:
             value[n.target.id] = n.value
         elif isinstance(n, ast.NamedExpr) and isinstance(n.target, ast.Name):
             value[n.target.id] = n.value
+        elif isinstance(n, ast.Assign) and len(n.targets) == 1 and isinstance(n.targets[0], ast.Tuple) \
+                and all(isinstance(t, ast.Name) for t in n.targets[0].elts):
+            # q, r = divmod(a, b) / a, b = x, y: each name stands for its component
+            names = [t.id for t in n.targets[0].elts]
+            if isinstance(n.value, ast.Tuple) and len(n.value.elts) == len(names):
+                for nm, v in zip(names, n.value.elts):
+                    value[nm] = v
+            elif isinstance(n.value, ast.Call) and isinstance(n.value.func, ast.Name) and n.value.func.id == "divmod" and len(names) == 2 and len(n.value.args) == 2:
+                a_, b_ = n.value.args
+                value[names[0]] = ast.copy_location(ast.BinOp(left=a_, op=ast.FloorDiv(), right=b_), n.value)
+                value[names[1]] = ast.copy_location(ast.BinOp(left=a_, op=ast.Mod(), right=b_), n.value)
     args = getattr(fn_node, "args", None)
     params = {x.arg for x in (args.posonlyargs + args.args + args.kwonlyargs)} if args is not None else set()
     return {k: v for k, v in value.items() if count.get(k, 0) == 1 and k not in params}
